@@ -12,6 +12,8 @@
 -/
 import Crs.Assemble
 import CrsProofs.PassesBal
+import CrsProofs.Fuel
+import CrsProofs.ParseFuel
 namespace Crs.Props
 open Crs Crs.Passes Crs.Asm
 
@@ -328,5 +330,29 @@ theorem C19_generate_no_runtime_fault (E : Engine) (hE : EngineShape E) (fs : Pa
 /-- the theorem is not vacuous: a trivially shaped engine (alternatives joined by `|` are balanced when
     every alternative is) exists for balanced entries; here, the degenerate engine that rejects everything -/
 example : EngineShape ⟨fun _ => .error .diag⟩ := ⟨by intro q r h; simp at h, by intro q e h; simp at h; exact h.symm⟩
+
+/-! ### no hang: the bounds of the modelled loops are never reached -/
+
+/-- **C19 (the flag-removal loops reach their exit).** Both loops of `dontUseFlagsForMetaCharacters` are modelled with
+    fuel `2·|s| + 2`; every iteration moves the search offset forward or shortens the text, so for EVERY text the
+    result is the same with any larger amount of fuel — the bound is never what ends the loop. -/
+theorem C19_flag_loops_reach_exit (s : Bytes) (e1 e2 : Nat) :
+    dropFlagGroupsAux (2 * s.length + 2 + e2) 0 (dropFlagsAux (2 * s.length + 2 + e1) 0 s) = dontUseFlagsForMetaCharacters s :=
+  dontUseFlags_fuel_suffices s e1 e2
+
+/-- the rune loop of `useHexEscapes` and the scanner of `includeVerticalTabInSpaceClass` consume at least one byte per
+    step: their fuel (the length) is never used up -/
+theorem C19_scanners_reach_end (s : Bytes) (extra : Nat) :
+    useHexEscapesAux (s.length + extra) s = useHexEscapes s ∧
+    includeVTAux (s.length + extra) false s = includeVerticalTabInSpaceClass s :=
+  ⟨useHexEscapesAux_fuel _ _ s (by omega) (by omega), includeVTAux_fuel _ _ false s (by omega) (by omega)⟩
+
+/-- **C19 (include depth).** The parser model bounds the include depth by fuel; a successful parse is the same with
+    any larger bound: the bound only ever turns an include cycle (which the code follows until the OS stops it) into a
+    failure, it is never the reason for a result. -/
+theorem C19_include_bound_harmless (fs : Parser.Fs) (o1 o2 : Parser.Ord) (extra : Nat) (input : Bytes) (st : Parser.PState)
+    (h : Parser.parse fs o1 o2 Parser.defaultFuel [] input = .ok st) :
+    Parser.parse fs o1 o2 (Parser.defaultFuel + extra) [] input = .ok st :=
+  Parser.parse_mono_add fs o1 o2 _ extra [] input st h
 
 end Crs.Props
